@@ -128,6 +128,13 @@ fn decode_op(r: &Rec, len: usize, kind: KindId, mix: CMix, faulty: bool, zst: bo
     let op = match op {
         Op::ExtendIter(v, _) if faulty => Op::ExtendClone(v, true),
         Op::Splice(..) if faulty => Op::Pop,
+        // (reserving for zero-sized elements cannot overflow a byte size: no unrepresentable-hint form there)
+        // (nor together with an injected panic: the capacity-overflow panic is raised inside Splice::drop, and a
+        //  second panic while unwinding aborts the process by the rules of the language)
+        Op::Splice(r, v, c) if c / 5 >= 4 && (zst || with_reg(|g| g.panic_at.is_some())) => Op::Splice(r, v, c % 20),
+        // (with an empty tail the replacement goes through `extend`, where a lying size_hint legitimately makes
+        //  std and the library stop at different points; with a tail both run the same gap-filling algorithm)
+        Op::Splice(r, v, c) if c / 5 >= 4 && !resolve(&r, len).map(|(_, e)| e < len).unwrap_or(false) => Op::Splice(r, v, c % 20),
         o => o,
     };
     if !zst {
@@ -220,7 +227,7 @@ fn decode_op_inner(r: &Rec, len: usize, kind: KindId, mix: CMix, faulty: bool) -
             }
         }
         // third field: elements taken from the returned iterator (% 5) and the replacement's size_hint form (/ 5)
-        31 => Op::Splice(range, vals(r, n_small % 6), r.b(8) as usize % 20),
+        31 => Op::Splice(range, vals(r, n_small % 6), r.b(8) as usize % if faulty { 20 } else { 25 }),
         _ => {
             let _ = kind;
             Op::SplitOff(range)
@@ -234,6 +241,8 @@ enum MRes {
     Vals(Vec<u32>),
     Part(Vec<u32>),
     Panic,
+    /// std panics part way through and leaves the vector in this state (capacity overflow inside `Splice::drop`)
+    PanicState(Vec<u32>),
     /// state unknown afterwards (leaked drain): resynchronise
     Resync(Vec<u32>),
 }
@@ -452,6 +461,31 @@ fn model_apply(m: &mut Vec<u32>, op: &Op, rev: bool) -> MRes {
         Op::Reserve(..) | Op::ReserveExact(..) | Op::ShrinkToFit | Op::ShrinkTo(_) => MRes::Unit,
         Op::Splice(r, vs, consume) => match resolve(r, len) {
             None => MRes::Panic,
+            Some((s, e)) if *consume / 5 >= 4 => {
+                // the replacement claims an unrepresentable lower bound: std panics with "capacity overflow" inside
+                // Splice::drop when it moves the tail (if there is a tail and the gap was too small) and puts the
+                // tail back; run std itself to learn the state it leaves
+                struct Huge(std::vec::IntoIter<u32>);
+                impl Iterator for Huge {
+                    type Item = u32;
+                    fn next(&mut self) -> Option<u32> {
+                        self.0.next()
+                    }
+                    fn size_hint(&self) -> (usize, Option<usize>) {
+                        (usize::MAX / 8, None)
+                    }
+                }
+                let mut c = m.clone();
+                let take = *consume % 5;
+                let r = catch_unwind(AssertUnwindSafe(|| c.splice(s..e, Huge(vs.clone().into_iter())).take(take).collect::<Vec<u32>>()));
+                match r {
+                    Ok(removed) => {
+                        *m = c;
+                        MRes::Vals(removed)
+                    }
+                    Err(_) => MRes::PanicState(c),
+                }
+            }
             Some((s, e)) => {
                 let removed: Vec<u32> = m.splice(s..e, vs.iter().copied()).collect();
                 MRes::Vals(removed.into_iter().take(*consume % 5).collect())
@@ -757,6 +791,16 @@ fn step<'b, T: Elem + Clone + PartialEq>(st: &mut St, l: &mut Live<'b, T>, op: &
                 st.class("fixed_full");
                 // contents unchanged? (partial extend may have happened before the panic: resync)
                 l.m = l.v.snapshot().iter().map(|(_, v)| *v).collect();
+            } else if let MRes::PanicState(ms) = &exp {
+                st.class("expected_panic");
+                st.class("overflow_request");
+                // capacity overflow in the middle of the operation: reported by unwinding, and the vector is left
+                // exactly as std leaves it (nothing duplicated, nothing lost)
+                let now: Vec<u32> = l.v.snapshot().iter().map(|(_, v)| *v).collect();
+                if now != *ms {
+                    st.fail("C07/collection-state-after-failure", format!("{what}: capacity overflow inside the operation left the contents {now:?}, std leaves {ms:?}"));
+                }
+                l.m = now;
             } else if matches!(exp, MRes::Panic) {
                 st.class("expected_panic");
                 // state after a caught panic: must equal the model's pre-state (std does not change it)
@@ -806,6 +850,9 @@ fn step<'b, T: Elem + Clone + PartialEq>(st: &mut St, l: &mut Live<'b, T>, op: &
                     if faults > 0 && (l.v.capacity() != cap0 || (!rev && l.v.ptr() != ptr0)) && !T::ZST {
                         st.fail("C07/collection-state-after-failure", format!("{what}: failed growth changed capacity {cap0} -> {} or the buffer", l.v.capacity()));
                     }
+                }
+                (r, MRes::PanicState(_)) => {
+                    st.fail("C07/overflow-accepted", format!("{what}: returned {r:?} where std panics with a capacity overflow"));
                 }
                 (_, MRes::Panic) => {
                     let id = if matches!(op, Op::SplitOff(_)) { "C16/panic-verdict" } else { "C08/panic-verdict" };
